@@ -294,8 +294,9 @@ Fixpoint hx (s : string) : list N :=
    said in strict and in compatible mode, and (when compatible mode accepted)
    the bytes obtained by rebuilding the value field by field through the
    generated accessors and builders *)
+Inductive rebuilt := RNone | RSame | RBytes (bs : list N).
 Record mol_case := mkMol {
-  mc_ty : ty; mc_bytes : list N; mc_strict : bool; mc_compat : bool; mc_rebuilt : option (list N) }.
+  mc_ty : ty; mc_bytes : list N; mc_strict : bool; mc_compat : bool; mc_rebuilt : rebuilt }.
 
 Definition check_mol (c : mol_case) : bool :=
   let t := mc_ty c in
@@ -304,7 +305,8 @@ Definition check_mol (c : mol_case) : bool :=
   Bool.eqb (isSome ds) (mc_strict c) && Bool.eqb (isSome dc) (mc_compat c) &&
   match ds with Some v => bytes_eqb (encode t v) (mc_bytes c) | None => true end &&
   match dc, mc_rebuilt c with
-  | Some v, Some r => bytes_eqb (encode t v) r && (len r =? size t v)
-  | None, None => true
+  | Some v, RSame => bytes_eqb (encode t v) (mc_bytes c) && (len (mc_bytes c) =? size t v)
+  | Some v, RBytes r => bytes_eqb (encode t v) r && (len r =? size t v)
+  | None, RNone => true
   | _, _ => false
   end.
